@@ -26,6 +26,7 @@ import (
 	"os"
 	"os/signal"
 	"path/filepath"
+	"runtime"
 	"sort"
 	"strconv"
 	"strings"
@@ -201,6 +202,14 @@ type limitReq struct {
 }
 
 func init() {
+	// rotate + fm.seal with the sealing goroutine locked to its OS thread (strace counts injected
+	// faults per thread)
+	storectl.Register("c08_seal_locked", func(c *storectl.Child, r storectl.Req) (storectl.Resp, error) {
+		runtime.LockOSThread()
+		defer runtime.UnlockOSThread()
+		fracbuild.Seal(c.FM)
+		return storectl.Resp{}, nil
+	})
 	storectl.Register("c08_kinds", func(c *storectl.Child, r storectl.Req) (storectl.Resp, error) {
 		b, _ := json.Marshal(c.FM.VerifC08Kinds())
 		return storectl.Resp{Extra: b}, nil
